@@ -4,7 +4,7 @@ CONSTANTS
   Ops = {"Authorize", "Login", "Callback", "CodeExchange", "Refresh"}
   MaxReq = 1
   MaxCode = 1
-  MaxAT = 3
+  MaxAT = 4
   MaxDev = 0
   MaxSteps = 99
   Seeded = FALSE
